@@ -199,6 +199,7 @@ impl Plan {
                 "sizes": self.reader.sizes,
                 "eintr": self.reader.eintr.iter().map(|(o, t)| json!([o, t])).collect::<Vec<_>>(),
                 "error": self.reader.error.map(|(at, k, s)| json!({"at": at, "kind": k.name(), "sticky": s})),
+                "vectored": self.reader.vectored,
             },
             "workload": workload,
             "threads": self.threads,
@@ -245,6 +246,7 @@ impl Plan {
                     p.reader.eintr.push((o, t as u32));
                 }
             }
+            p.reader.vectored = r.get("vectored").and_then(|x| x.as_bool()).unwrap_or(false);
             if let Some(e) = r.get("error") {
                 if !e.is_null() {
                     let at = e.get("at").and_then(|x| x.as_u64()).ok_or("error.at")?;
